@@ -79,6 +79,9 @@ func (d *Dumper) TypeLit(tpe typesutil.Type) string {
 	case reflect.Map:
 		return fmt.Sprintf("map[%s]%s", d.TypeLit(tpe.Key()), d.TypeLit(tpe.Elem()))
 	case reflect.Interface:
+		if tpe.Name() == "error" {
+			return "error"
+		}
 		return "any"
 	default:
 		return tpe.String()
